@@ -52,6 +52,10 @@ type provCfg struct {
 	// InlineResults: look into module callees' return values.
 	InlineResults bool
 	MaxDepth      int
+	// BindFunc: the function a func-typed parameter is known to hold (the function value passed
+	// at the call site under analysis); a call of such a parameter is then treated as a call of
+	// that function (with InlineResults its results are looked into). nil = no binding.
+	BindFunc func(p *ssa.Parameter) *ssa.Function
 }
 
 type provState struct {
@@ -307,7 +311,15 @@ func (st *provState) visitCallResult(call ssa.Value, idx int, rs RootSet, depth 
 	cc := c.Common()
 	key := calleeKey(cc)
 	if st.cfg.InlineResults && depth < st.cfg.MaxDepth {
-		if f := staticCallee(cc); f != nil && f.Blocks != nil && fnPkg(f) != nil && strings.HasPrefix(fnPkg(f).Path(), modulePath) {
+		f := staticCallee(cc)
+		if f == nil && st.cfg.BindFunc != nil && !cc.IsInvoke() {
+			if p, isPar := cc.Value.(*ssa.Parameter); isPar {
+				if f = st.cfg.BindFunc(p); f != nil {
+					key = funcKey(f)
+				}
+			}
+		}
+		if f != nil && f.Blocks != nil && fnPkg(f) != nil && strings.HasPrefix(fnPkg(f).Path(), modulePath) {
 			// map callee result roots back to arguments
 			sub := &provState{cfg: st.cfg, seen: map[ssa.Value]bool{}}
 			sub.cfg.FollowCallers = false
